@@ -1045,6 +1045,38 @@ def post_case(item):
     elif kind == "pha-req":
         attempt("S", "C", lambda p: p.s.request_post_handshake_auth(
             sc.server_settings()), "pha-req")
+        # well-formed requests whose signature_algorithms the client's key
+        # cannot serve (or that carry no such extension at all)
+        from ..puppet import RawMsg
+        for (label, algs) in (("ecdsa-only", b"\x04\x03"),
+                              ("eddsa-only", b"\x08\x07"),
+                              ("unknown-only", b"\xee\xee"),
+                              ("sha1-rsa-only", b"\x02\x01"),
+                              ("pkcs1-only", b"\x04\x01\x05\x01"),
+                              ("empty-list", b""), ("no-extension", None)):
+            p = fresh()
+            p.drain()
+            if algs is None:
+                ext = b""
+            else:
+                ext = b"\x00\x0d" + (2 + len(algs)).to_bytes(2, "big") + \
+                    len(algs).to_bytes(2, "big") + algs
+            body = b"\x03ctx" + len(ext).to_bytes(2, "big") + ext
+            newb = b"\x0d" + len(body).to_bytes(3, "big") + body
+            W.run_gen(p.world, "S", p.s._sendMsg(RawMsg(22, newb),
+                                                 update_hashes=False))
+            m = Meter("C")
+            p.world.meter = m
+            o = p.read("C", None, 0)
+            res["n"] += 1
+            sig, fails = judge(p, {"C": o if o.status != "stall" else
+                                   W.Outcome("ok")}, "C", m, 4000, len(newb))
+            res["sigs"].add(("CR-sigalgs", sig))
+            for (k, text) in fails:
+                k = dict(k)
+                k["msg"] = "CR"
+                k["post"] = kind
+                res["fails"].append((k, text, "sigalgs:" + label))
     elif kind == "pha-flight":
         def gen(p):
             # server asks, client answers through a read
